@@ -13,6 +13,8 @@ let () =
   Ad_attempt.init ();
   Ad_context.init ();
   Ad_pubsub.init ();
+  Ad_notifier.init ();
+  Ad_exclusive.init ();
   let fn_cases = ref 0 and fn_bad = ref 0 in
   let file = Sys.argv.(1) in
   let ic = open_in file in
